@@ -30,7 +30,9 @@ static std::string join(const std::vector<long>& v) {
   return s;
 }
 
-template <typename Policy>
+// IntPred: the predicate returns int, truthy values are even numbers 2..10 (never exactly 1): "satisfying
+// the predicate" means contextually convertible to true
+template <bool IntPred = false, typename Policy>
 static std::string run_find(long n, const std::set<long>& hits, Policy pol, bool pool) {
   const long guard = 4096;
   std::vector<int> buf(n + 2 * guard, 0);
@@ -38,12 +40,13 @@ static std::string run_find(long n, const std::set<long>& hits, Policy pol, bool
   std::vector<long> visited;
   std::mutex m;
   long limit = n + 3000;
-  auto pred = [&](const int& v) noexcept {
+  auto pred = [&](const int& v) noexcept -> std::conditional_t<IntPred, int, bool> {
     long off = &v - base;
     std::lock_guard<std::mutex> lk(m);
     visited.push_back(off);
-    if ((long)visited.size() > limit) return true;  // runaway scan (pre-fix tree): force an end
-    return hits.count(off) != 0;
+    if ((long)visited.size() > limit) return 2;  // runaway scan (pre-fix tree): force an end
+    if constexpr (IntPred) return hits.count(off) != 0 ? 2 + 2 * (int)(off % 5) : 0;
+    else return hits.count(off) != 0;
   };
   long res;
   if (pool) {
@@ -100,16 +103,83 @@ static std::string run_bulk_stack(long n, long k) {
   return term + " [" + join(idx) + "]";
 }
 
+// ---- execution policies: what bulk_schedule's receiver reports under a stack of bulk_transforms ----------
+template <typename P> static const char* pol_name() {
+  if constexpr (std::is_same_v<P, sequenced_policy>) return "seq";
+  else if constexpr (std::is_same_v<P, unsequenced_policy>) return "unseq";
+  else if constexpr (std::is_same_v<P, parallel_policy>) return "par";
+  else if constexpr (std::is_same_v<P, parallel_unsequenced_policy>) return "par_unseq";
+  else return "?";
+}
+// the source: a many-sender that only reports the policy its receiver shows
+static std::string g_seen;
+struct probe_source {
+  template <template <typename...> class Variant, template <typename...> class Tuple>
+  using value_types = Variant<Tuple<>>;
+  template <template <typename...> class Variant, template <typename...> class Tuple>
+  using next_types = Variant<Tuple<>>;
+  template <template <typename...> class Variant> using error_types = Variant<>;
+  static constexpr bool sends_done = true;
+  template <typename R> struct op {
+    R r;
+    void start() noexcept {
+      using P = std::remove_cv_t<std::remove_reference_t<decltype(get_execution_policy(r))>>;
+      g_seen = pol_name<P>();
+      unifex::set_next(r);
+      unifex::set_value(std::move(r));
+    }
+  };
+  template <typename R> friend op<unifex::remove_cvref_t<R>> tag_invoke(tag_t<connect>, probe_source, R&& r) { return {(R&&)r}; }
+};
+struct plain_rec {   // no get_execution_policy customisation
+  void set_next() & noexcept {}
+  void set_value() && noexcept {}
+  void set_done() && noexcept {}
+  template <typename E> void set_error(E&&) && noexcept {}
+};
+template <typename P> struct pol_rec : plain_rec {
+  friend P tag_invoke(tag_t<get_execution_policy>, const pol_rec&) noexcept { return P{}; }
+};
+template <typename Sender>
+static std::string policy_bottom(Sender s, const std::string& b) {
+  g_seen = "unset";
+  auto go = [&](auto rec) { auto op = connect(std::move(s), std::move(rec)); start(op); };
+  if (b == "none") go(plain_rec{});
+  else if (b == "seq") go(pol_rec<sequenced_policy>{});
+  else if (b == "unseq") go(pol_rec<unsequenced_policy>{});
+  else if (b == "par") go(pol_rec<parallel_policy>{});
+  else if (b == "par_unseq") go(pol_rec<parallel_unsequenced_policy>{});
+  else if (b == "join") { sync_wait(bulk_join(std::move(s))); }
+  else return "ERR bottom";
+  return g_seen;
+}
+template <int Depth, typename Sender>
+static std::string policy_stack(Sender s, const std::string& b, const std::vector<std::string>& ps, size_t i) {
+  if (i == ps.size()) return policy_bottom(std::move(s), b);
+  if constexpr (Depth == 0) { return "ERR depth"; }
+  else {
+    auto f = []() noexcept {};
+    const std::string& p = ps[i];
+    if (p == "seq") return policy_stack<Depth - 1>(bulk_transform(std::move(s), f, seq), b, ps, i + 1);
+    if (p == "unseq") return policy_stack<Depth - 1>(bulk_transform(std::move(s), f, unseq), b, ps, i + 1);
+    if (p == "par") return policy_stack<Depth - 1>(bulk_transform(std::move(s), f, par), b, ps, i + 1);
+    if (p == "par_unseq") return policy_stack<Depth - 1>(bulk_transform(std::move(s), f, par_unseq), b, ps, i + 1);
+    return "ERR policy";
+  }
+}
+
 int main() {
   std::string line;
   while (std::getline(std::cin, line)) {
     std::istringstream is(line);
     std::string cmd; is >> cmd;
-    if (cmd == "find_par" || cmd == "find_seq" || cmd == "find_par_pool") {
+    if (cmd == "find_par" || cmd == "find_seq" || cmd == "find_par_pool" || cmd == "find_par_int" || cmd == "find_seq_int") {
       long n; is >> n; std::string bar; is >> bar;
       std::set<long> hits; long h; while (is >> h) hits.insert(h);
       if (cmd == "find_par") std::cout << run_find(n, hits, par, false) << "\n";
       else if (cmd == "find_par_pool") std::cout << run_find(n, hits, par, true) << "\n";
+      else if (cmd == "find_par_int") std::cout << run_find<true>(n, hits, par, false) << "\n";
+      else if (cmd == "find_seq_int") std::cout << run_find<true>(n, hits, seq, false) << "\n";
       else std::cout << run_find(n, hits, seq, false) << "\n";
     } else if (cmd == "bulk_indices") {
       long n; std::string ks, pol = "seq"; is >> n >> ks >> pol;
@@ -120,6 +190,9 @@ int main() {
       else if (pol == "par_unseq") std::cout << run_bulk<parallel_unsequenced_policy>(n, k) << "\n";
       else if (pol == "stack") std::cout << run_bulk_stack(n, k) << "\n";
       else std::cout << "ERR policy\n";
+    } else if (cmd == "policy") {
+      std::string b; is >> b; std::vector<std::string> ps; std::string p; while (is >> p) ps.push_back(p);
+      std::cout << policy_stack<3>(probe_source{}, b, ps, 0) << "\n";
     } else {
       std::cout << "ERR unknown\n";
     }
